@@ -163,8 +163,7 @@ def r62(ctx):
         tol_edges = set()
         for sb in fv.live_blocks():
             for tg, atom in atoms.edge_atoms(nv, sb):
-                if atom == atoms.parse_atom("`std::option::Option::<T>::is_none(invoiced_amount)`") or \
-                   (atom is not None and atom[0] == "bool" and atom[1][0].endswith("is_none(invoiced_amount)") and atom[2]):
+                if atom is not None and atoms.entails(atom, atoms.parse_atom("invoiced_amount is None")):
                     tol_edges.add((sb, tg))
         ctx.ob("R6.2", len(tol_edges) == 1, f"{b.name}/tolerated-branch", f"{len(tol_edges)} `invoiced_amount.is_none()` branches after a failed balance",
                where=f"{b.file}:{c.line}")
